@@ -34,9 +34,15 @@ def canon_exc(e):
     return {"err": G.err_kind(e)}
 
 
-def leaf_perm_apply(tree, path, sort, tdict):
+def as_form(sort, k):
+    """the permutation in one of the argument forms a caller may use (list, tuple, integer ndarray, int32 ndarray), chosen by position"""
+    form = ("list", "tuple", "ndarray", "int32")[(k + len(sort)) % 4]
+    return {"list": list(sort), "tuple": tuple(sort), "ndarray": np.array(sort, dtype=int), "int32": np.array(sort, dtype=np.int32)}[form]
+
+
+def leaf_perm_apply(tree, path, sort, tdict, k=0):
     node = G.node_at(tree, path)
-    node.permute_axes(sort)
+    node.permute_axes(as_form(sort, k))
     if node.is_leaf:
         tdict[node.tid] = np.transpose(tdict[node.tid], sort)
 
@@ -66,8 +72,8 @@ def impl(case):
             out["prep"] = canon_exc(e)
         try:
             t3 = tn.net.build_contraction_tree(case["scaffold"])
-            for path, sort in case.get("permutes", []):
-                G.node_at(t3, path).permute_axes(sort)
+            for k, (path, sort) in enumerate(case.get("permutes", [])):
+                G.node_at(t3, path).permute_axes(as_form(sort, k))
             out["permuted"] = {"nodes": G.tree_nodes(t3)}
         except Exception as e:
             out["permuted"] = canon_exc(e)
@@ -90,14 +96,19 @@ def impl(case):
             tdict = {t.tid: tn.data[t.dataref] for t in tn.net.tensors.values() if t.tid != -1}
             raw0 = np.asarray(ct.perform_tree_contraction(tree, tdict))
             rootperm = list(range(raw0.ndim))
-            for path, sort in case.get("permutes", []):
-                leaf_perm_apply(tree, path, sort, tdict)
+            stage = "permute_axes"
+            for k, (path, sort) in enumerate(case.get("permutes", [])):
+                leaf_perm_apply(tree, path, sort, tdict, k)
                 if not path:
                     rootperm = [rootperm[i] for i in sort]
+            stage = "contraction after permute_axes"
             raw = np.asarray(ct.perform_tree_contraction(tree, tdict))
             out["tree_perm"] = {"raw0": raw0, "raw": raw, "rootperm": rootperm}
         except Exception as e:
             out["tree_perm"] = canon_exc(e)
+            if "raw0" in dir():
+                # the un-permuted tree contracted fine: re-ordering axes (valid permutations, in any argument form) must not fail
+                out["tree_perm"]["after_base_ok"] = f"{stage}: {type(e).__name__}: {e}"[:160]
     return out
 
 
@@ -254,9 +265,8 @@ def oracle(case, o):
             want = np.transpose(p["raw0"], p["rootperm"])
             if p["raw"].shape != want.shape or not np.array_equal(p["raw"], want):
                 bad.append(("C07:permute_axes:value", "re-ordering node axes changed the contraction result"))
-        elif case.get("permutes") is not None and "err" in p:
-            # the tree could be built and contracted before the permutations?
-            pass
+        elif p.get("after_base_ok"):
+            bad.append(("C07:permute_axes:raised", f"the tree contracts, but after permute_axes {case.get('permutes')} (argument forms list/tuple/ndarray): {p['after_base_ok']}"))
     return bad
 
 
